@@ -354,6 +354,12 @@ func (e *Engine) invoke(st *State, recv IfaceV, ifaceT types.Type, m *types.Func
 			return e.callFunction(st, fn, append([]Value{e.unbox(st, recv, t)}, args...), nil, res, pos)
 		}
 	}
+	if e.isPureMethod(m) {
+		rv := e.pureMethodResult(st, m, recv, args)
+		e.trustedUsed["pure interface method "+m.FullName()+": deterministic function of receiver and arguments, no effects"] = true
+		setRes(st, res, rv)
+		return []*State{st}
+	}
 	if e.isExternIface(ifaceT, m) {
 		sig := m.Type().(*types.Signature)
 		var rv Value
@@ -710,4 +716,57 @@ func (e *Engine) resolveAllLoc(env *SpecEnv, s string) []KeySort {
 		cur = ft
 	}
 	return e.leafKeys(key, cur, 0)
+}
+
+func (e *Engine) isPureMethod(m *types.Func) bool {
+	recv := m.Type().(*types.Signature).Recv()
+	if recv == nil {
+		return false
+	}
+	pkg, name := ifaceName(recv.Type())
+	if ps, ok := e.specs[pkg]; ok && ps.PureM[name+"."+m.Name()] {
+		return true
+	}
+	return false
+}
+
+// pureMethodResult: the result of a pure interface method as an uninterpreted
+// function of receiver and arguments.
+func (e *Engine) pureMethodResult(st *State, m *types.Func, recv IfaceV, args []Value) Value {
+	flat := e.flat(recv)
+	for _, a := range args {
+		flat = append(flat, e.flat(a)...)
+	}
+	var sorts []*Sort
+	var sk []string
+	for _, t := range flat {
+		sorts = append(sorts, t.Sort)
+		sk = append(sk, t.Sort.String())
+	}
+	mk := func(suffix string, rs *Sort) Term {
+		f := e.ctx.Func("pm:"+m.FullName()+suffix+"/"+strings.Join(sk, ","), sorts, rs)
+		var sb strings.Builder
+		sb.WriteString("(" + f)
+		for _, t := range flat {
+			sb.WriteString(" " + t.S)
+		}
+		sb.WriteString(")")
+		return T(sb.String(), rs)
+	}
+	sig := m.Type().(*types.Signature)
+	if sig.Results().Len() != 1 {
+		panic(unsupported("pure method with != 1 results: " + m.FullName()))
+	}
+	rt := sig.Results().At(0).Type()
+	if rs, ok := e.scalarSort(rt); ok {
+		r := mk("", rs)
+		e.assumeTyped(st, r, rt)
+		return r
+	}
+	if _, ok := rt.Underlying().(*types.Interface); ok {
+		iv := IfaceV{Tag: mk("#tag", SInt), Pay: mk("#pay", SInt)}
+		st.assume(Le(IntLit(0), iv.Tag))
+		return iv
+	}
+	panic(unsupported("pure method result type " + rt.String()))
 }
